@@ -800,6 +800,10 @@ func (g *gen) shareStmt(lvl int) string {
 // importStmt imports a generated, fixed, host or stdlib module into a variable.
 func (g *gen) importStmt(lvl int) string {
 	name := g.fresh("m")
+	if g.t.Bool(1, 24) {
+		// a source module of size zero (its value is undefined)
+		return ind(lvl) + name + " := import(\"" + []string{"modEmpty", "modBlank"}[g.t.Draw(2)] + "\")\n" + ind(lvl) + "log(" + name + ")\n"
+	}
 	if g.t.Bool(1, 12) {
 		g.features["import-host2"] = true
 		return ind(lvl) + name + " := import(\"host2\")\n" + ind(lvl) + "log(" + name + ".double(" + g.expr(tInt, 1) + "), " + name + ".str)\n"
